@@ -330,6 +330,12 @@ pub fn class_name(r: Reject) -> &'static str {
 
 /// Decide one byte string against the model. Returns false if the case was skipped.
 pub fn c03_bytes(ops: &TypeOps, b: &[u8], origin: &str, rep: &mut Report) -> bool {
+	model_differential(ops, b, origin, rep, "C03")
+}
+
+/// The decoder of `ops` against the reference decoder on one byte string (used by C03 and, for the
+/// "bulk path == element-wise path" clause, by C07: the model decodes element by element).
+pub fn model_differential(ops: &TypeOps, b: &[u8], origin: &str, rep: &mut Report, prop: &str) -> bool {
 	let d = ops.d();
 	let model = spec_decode(&ops.ty, b);
 	if let Err(Reject::Budget) = model {
@@ -343,7 +349,7 @@ pub fn c03_bytes(ops: &TypeOps, b: &[u8], origin: &str, rep: &mut Report) -> boo
 		rep.violation(
 			&format!("{sig}:{}", ops.name),
 			format!("{}: {} on input {} ({origin})", ops.name, msg, hex(&b[..b.len().min(80)])),
-			replay_json("C03", ops, b, &[("origin", jstr(origin))]),
+			replay_json(prop, ops, b, &[("origin", jstr(origin))]),
 		)
 	};
 	match (&model, real) {
@@ -565,10 +571,12 @@ pub fn c03(ctx: &Ctx) {
 			prev = case.bytes;
 		}
 	}
-	// (e) exhaustive short strings
-	c03_exhaustive(ctx, &mut rep);
-	if ctx.shard == 0 && !ctx.is_slow() {
-		c03_bit_limit(ctx, &mut rep);
+	// (e) exhaustive short strings (not repeated under the sanitizer stages)
+	if ctx.mode != "sampled-only" {
+		c03_exhaustive(ctx, &mut rep);
+		if ctx.shard == 0 && !ctx.is_slow() {
+			c03_bit_limit(ctx, &mut rep);
+		}
 	}
 	finish(ctx, &rep);
 }
